@@ -42,7 +42,7 @@ def main():
     ids = sys.argv[1:] or sorted(os.listdir(f'{V}/seeded'))
     import tempfile, shutil
     work = tempfile.mkdtemp(prefix='govc-seedwork-')
-    sh('rsync', '-a', '--exclude', '.git', '/repo/', work + '/')
+    sh('rsync', '-a', '--exclude', '.git', os.environ.get('GOVC_BASE_REPO', '/repo') + '/', work + '/')
     try:
         run(ids, work)
     finally:
